@@ -1077,6 +1077,29 @@ def _is_symmetric_runs(ctx):
     return fn, out
 
 
+def fold_ways_out(ret, alts):
+    """The value a function returns as one test.  `if not A: return False` (or `return A`) in front of `return REST` is `A and REST`, exactly
+    (Python's `and` returns the falsy operand): such early returns are folded into the final test, last one first.  Early returns of another
+    shape (`return True` under a test, a value unrelated to its test) are handed back unfolded.  -> (test, [unfolded values])"""
+    res, loose = ret, []
+    for v, _pos, cond in reversed(alts):
+        folded = None
+        if is_rat(res) and is_rat(v) and cond is not None and is_rat(cond) and not is_unknown(res):
+            keep = S.negate(cond)          # what holds on the way to the rest of the function
+            try:
+                if S.sym_name(v) == "False":
+                    folded = F.fn("bool:And", keep, res)
+                elif v.equals(keep):
+                    folded = F.fn("bool:And", v, res)
+            except Unsupported:
+                folded = None
+        if folded is None:
+            loose.insert(0, v)
+        else:
+            res = folded
+    return res, loose
+
+
 def _rule_text(d):
     if d["kind"] == "exact":
         return "exact equality"
@@ -1158,7 +1181,8 @@ def r8_symmetry_test(ctx):
     tests, consts = {}, {}
     for arm in ("sparse", "dense"):
         ret, rnode, alts, _W = runs[arm]
-        vals = [ret] + [a for a, _p in alts]
+        ret, loose = fold_ways_out(ret, alts)
+        vals = [ret] + loose
         consts[arm] = [v for v in vals if is_rat(v) and sym_name(v) in ("True", "False")]
         tests[arm] = [v for v in vals if not (is_rat(v) and sym_name(v) in ("True", "False"))]
         if not tests[arm]:
